@@ -803,7 +803,7 @@ fn main() {
     main_with(
         "C10",
         "model_checking",
-        "level-BFS over histories of mint (sequential / explicit ids {0,1,7,u32::MAX} incl. re-mint of a burned explicit id / batch_mint n in {1,2,3,5}) / transfer (to self, to another account, by a non-owner, of a non-existent id) / transfer_from and burn_from (by the approved-for-all operator; thorough: also after a token-level approve) / burn, on the first, second, middle, last-1, last id and the item(32)- and bucket(3200)-edge ids of every batch, 3 accounts, on the real nft-sequential-minting / nft-enumerable / nft-consecutive examples and Base::mint / Enumerable::non_sequential_mint wrappers; consecutive seeds with an initial batch of 31/32/33 (quick) and 3199/3200/3201/32000 (thorough); after every accepted step: owner_of and token_uri for every id in 0..next_id+2 (large seeds: every id within 2 of a touched id, batch edge, adjacent multiple of 32, any multiple of 3200), balance of every account = ids owned, enumerable: total_supply + global and per-owner lists as exact sets with every index once and the index past the end refused; non-trivial = distinct storage state reached through >=1 accepted call",
+        "level-BFS over histories of mint (sequential / explicit ids {0,1,7,u32::MAX} incl. re-mint of a burned explicit id / batch_mint n in {1,2,3,5}) / transfer (to self, to another account, by a non-owner, of a non-existent id) / transfer_from and burn_from (by the approved-for-all operator; thorough: also after a token-level approve) / burn, on the first, second, middle, last-1, last id and the item(32)- and bucket(3200)-edge ids of every batch, 3 accounts, on the real nft-sequential-minting / nft-enumerable / nft-consecutive examples and Base::mint / Enumerable::non_sequential_mint wrappers; depth 6 (base, enumerable sequential), 5 (enumerable explicit ids), 4 (consecutive; thorough: + depth 5 with a lean alphabet); seeds: sequential id counter at u32::MAX-2, consecutive initial batch of 31/32/33 (depth 3) and, thorough, 3199/3200/3201 (depth 3) and 32000 (depth 2); after every accepted step: owner_of and token_uri for every id in 0..next_id+2 (more than 400 ids issued: every id within 2 of a touched id, a batch edge, the adjacent multiples of 32 and every multiple of 3200), balance of every account = ids owned, enumerable: total_supply + global and per-owner lists as exact sets with every index once and the index past the end refused; non-trivial = distinct storage state reached through >=1 accepted call",
         |tier: Tier, r: &mut Runner| {
             let th = tier == Tier::Thorough;
             let world = |flavour: Flavour, name: &'static str, seeds: Vec<Seed>| Nft {
@@ -823,13 +823,6 @@ fn main() {
             r.world(&world(Flavour::EnumSeq, "nft-enumerable-sequential", counter_seeds()), &Bounds::new(6, tier.pick(5, 50)));
             r.world(&world(Flavour::EnumExplicit, "nft-enumerable-explicit-ids", vec![Seed::Empty]), &Bounds::new(5, tier.pick(7, 55)));
             r.world(&world(Flavour::Consecutive, "nft-consecutive", vec![Seed::Empty]), &Bounds::new(4, tier.pick(13, 75)));
-            if th {
-                let mut deep = world(Flavour::Consecutive, "nft-consecutive-deep", vec![Seed::Empty]);
-                deep.mint_to = vec![0, 1];
-                deep.rich = false;
-                deep.lean = true;
-                r.world(&deep, &Bounds::new(5, 240));
-            }
             // seeds whose initial batch straddles an item (32) / bucket (3200) edge or is maximal
             let seeded = |name: &'static str, sizes: Vec<u32>, mint_to: Vec<usize>| {
                 let mut w = world(Flavour::Consecutive, name, sizes.into_iter().map(Seed::Batch).collect());
@@ -837,10 +830,18 @@ fn main() {
                 w.rich = false;
                 w
             };
-            r.world(&seeded("nft-consecutive-item-edge", vec![31, 32, 33], tier.pick(vec![1], vec![0, 1])), &Bounds::new(3, tier.pick(12, 30)));
+            r.world(&seeded("nft-consecutive-item-edge", vec![32001], tier.pick(vec![1], vec![0, 1])), &Bounds::new(3, tier.pick(12, 30)));
             if th {
                 r.world(&seeded("nft-consecutive-bucket-edge", vec![3199, 3200, 3201], vec![0, 1]), &Bounds::new(3, 40));
-                r.world(&seeded("nft-consecutive-max-batch", vec![32000], vec![0, 1]), &Bounds::new(2, 10));
+                r.world(&seeded("nft-consecutive-max-batch", vec![32001], vec![0, 1]), &Bounds::new(2, 10));
+            }
+            if th {
+                // the most expensive world last
+                let mut deep = world(Flavour::Consecutive, "nft-consecutive-deep", vec![Seed::Empty]);
+                deep.mint_to = vec![0, 1];
+                deep.rich = false;
+                deep.lean = true;
+                r.world(&deep, &Bounds::new(5, 220));
             }
             if let Some(rep) = r.report() {
                 let mut ok = vec![
